@@ -10,6 +10,7 @@ mod core;
 mod alloc;
 mod conv;
 mod mk;
+mod visit;
 mod props;
 
 use crate::core::*;
